@@ -6,6 +6,7 @@
 -/
 import PySpikeVerif.Model.Pyx
 import PySpikeVerif.Proofs.TauLaws
+import PySpikeVerif.Proofs.PyxEq
 
 namespace PySpike.C12
 open PySpike
@@ -39,5 +40,46 @@ theorem F10_model : orderValuePyx [] [] 0 4 0 0 = (1, 1) ∧
   constructor <;> decide +kernel
 /-- … F12: the zero-width closing piece has value `0/0` (0 in ℚ, NaN in IEEE) -/
 theorem F12_model : isiDistancePyx [4] [4] 0 4 0 = 0 := by decide +kernel
+
+/-! ### from Proofs/PyxEq.lean (work package B3): the routines written differently agree -/
+
+/-- `isi_profile_cython` = `isi_distance_python`, for all inputs (the end-edge rule via the previous
+    `nu` equals the recomputed `s[N-1]-s[N-2]`) -/
+theorem isi_profile_agree (s1 s2 : List Q) (ts te m : Q) :
+    isiProfilePyx s1 s2 ts te m = isiProfile s1 s2 ts te m := isiProfilePyx_eq s1 s2 ts te m
+
+/-- `spike_profile_cython` = `spike_distance_python`, for all inputs -/
+theorem spike_profile_agree (t1 t2 : List Q) (ts te m : Q) (ri : Bool) :
+    spikeProfilePyx t1 t2 ts te m ri = spikeProfile t1 t2 ts te m ri := spikeProfilePyx_eq t1 t2 ts te m ri
+
+/-- the single-pass `isi_distance_cython` equals averaging the profile (in ℚ, for all inputs;
+    the IEEE NaN of known finding F12 comes from the zero-width closing piece) -/
+theorem isi_distance_single_pass (s1 s2 : List Q) (ts te m : Q) :
+    isiDistancePyx s1 s2 ts te m = (Pwc.mk (isiProfile s1 s2 ts te m).1 (isiProfile s1 s2 ts te m).2).avrgAll :=
+  B3_isiDistancePyx_eq_avrg_all s1 s2 ts te m
+
+/-- the single-pass `spike_distance_cython` equals averaging the (Python) profile -/
+theorem spike_distance_single_pass (t1 t2 : List Q) (ts te m : Q) (ri : Bool) :
+    spikeDistancePyx t1 t2 ts te m ri
+      = (Pwl.mk (spikeProfile t1 t2 ts te m ri).1 (spikeProfile t1 t2 ts te m ri).2.1
+                (spikeProfile t1 t2 ts te m ri).2.2).avrgAll :=
+  spikeDistancePyx_eq_avrg_py t1 t2 ts te m ri
+
+/-- `coincidence_value_cython` / `spike_train_order_cython`: the multiplicity equals the summed
+    multiplicity of the profile (two empty trains excluded for the order routine: finding F10) -/
+theorem coincidence_value_multiplicity (s1 s2 : List Q) (ts te mt m : Q) :
+    (coincValuePyx s1 s2 ts te mt m).2 = (Disc.mk (coincProfile s1 s2 ts te mt m)).integralAll.2 :=
+  coincValuePyx_mp s1 s2 ts te mt m
+theorem order_value_multiplicity (s1 s2 : List Q) (ts te mt m : Q) (h : ¬ (s1 = [] ∧ s2 = [])) :
+    (orderValuePyx s1 s2 ts te mt m).2 = (Disc.mk (orderProfile s1 s2 ts te mt m)).integralAll.2 :=
+  orderValuePyx_mp s1 s2 ts te mt m h
+
+/-- … and the value equals the summed profile values whenever no coincidence mark overwrites an
+    already marked entry (`B3_scanSafe`, an executable predicate; for valid trains it is the
+    one-to-one property of coincidences) -/
+theorem coincidence_value_partial (s1 s2 : List Q) (ts te mt m : Q)
+    (hs : B3_scanSafe 1 1 2 (trueMax ts te mt) m [] s1 [] s2 [] = true) :
+    (coincValuePyx s1 s2 ts te mt m).1 = (Disc.mk (coincProfile s1 s2 ts te mt m)).integralAll.1 :=
+  coincValuePyx_val s1 s2 ts te mt m hs
 
 end PySpike.C12
